@@ -262,11 +262,13 @@ class IncrementalExecutor(Executor[DeliveryGroupMap]):
         since these may be nested in results that never reached the scheduler
         (their producers would otherwise stay parked on their queues for ever).
         """
+        # mark the execution as stopped first, so that work created while the
+        # cancellation is settling is not started any more
+        stream_item_queues = self._stream_item_queues
+        stream_item_queues.closed = True
         await super().cancel_incremental_work(reason)
         awaitables: list[Any] = []
         is_awaitable = self.is_awaitable
-        stream_item_queues = self._stream_item_queues
-        stream_item_queues.closed = True
         for queue in stream_item_queues:
             abort_result = queue.abort(reason)
             if is_awaitable(abort_result):
@@ -481,7 +483,9 @@ class IncrementalExecutor(Executor[DeliveryGroupMap]):
 
             computation = Computation(execute_group, sub_executor.abort)
 
-            if enable_early_execution:
+            # do not start work that is created (by work settled in the background)
+            # after the execution has stopped, nobody would cancel it any more
+            if enable_early_execution and not self._stream_item_queues.closed:
                 if should_defer(parent_defer_usages, defer_usage_set):
                     self.prime_soon(computation)
                 else:
